@@ -144,3 +144,18 @@ Theorem unpenalised_contribute_zero : forall alpha (weights w : list R) (j : nat
   @WeightedL1_value R _ alpha weights false (set_nth w j x) = @WeightedL1_value R _ alpha weights false w.
 Proof. exact WeightedL1_unpenalized_contributes_zero. Qed.
 Print Assumptions unpenalised_contribute_zero.
+
+(* fix-point strategy (AndersonCD / ProxNewton): the regenerated dist_fix_point_cd returns, position by position,
+   |w_j - prox(w_j - step_j grad_j, step_j)| with step_j = 1 / L_j, or 1000 when L_j = 0 -- the step rule of the CD epoch --
+   hence it is zero exactly when the epoch update leaves the coefficient unchanged, zero-curvature features included *)
+Require Import SK.Lemmas.Loops SK.Gen.KernCD SK.Lemmas.FixPoint.
+Theorem fixpoint_score_is_residual_of_the_epoch_update :
+  forall (P : R -> R -> Z -> R) (w grad lip : list R) (ws : list Z) wvals,
+  valid_ws (length w) ws -> gather w ws = Ok wvals -> length grad = length ws -> length lip = length ws ->
+  @dist_fix_point_cd R _ (fun x s j => Ok (P x s j)) w grad lip ws = Ok (fill_vals (fp_val P) ws wvals (combine lip grad)).
+Proof. exact dist_fix_point_cd_spec. Qed.
+Print Assumptions fixpoint_score_is_residual_of_the_epoch_update.
+Theorem fixpoint_score_zero_iff_fixed_point : forall (P : R -> R -> Z -> R) j wj l g,
+  fp_val P j wj (l, g) = 0 <-> P (wj - fp_step l * g) (fp_step l) j = wj.
+Proof. exact fp_val_zero_iff. Qed.
+Print Assumptions fixpoint_score_zero_iff_fixed_point.
